@@ -288,3 +288,42 @@ Example C12_ex_composed_replay :
     [(0, 0, false); (1, 0, false); (2, 2, true); (2, 2, true)]%N /\
   replay_ok cx_steps = true.
 Proof. vm_compute. repeat split. eexists. eexists. reflexivity. Qed.
+
+(* ==== the judgements the replay driver applies to LONG replay sequences (scale cases: 10^3 .. 10^5 steps) ====
+   coq/theories/LineStats/Fast.v groups the replay sequence by commit once (binary trie of the standard library)
+   instead of walking it once per step; every fast function EQUALS the specification-level function it
+   replaces, for every input, so that a verdict of the fast judgement is a verdict of the judgement the
+   theorems above are about.  [keys] of the once-judgement is the list of (tick, developer) keys without
+   repetitions, computed by the caller; the extracted [same_keys] checks that it has exactly the elements
+   [once_ok] walks over. *)
+From Herc Require Import LineStats.Fast.
+Open Scope N_scope.
+
+Theorem C12_fast_replay_ok : forall l : list step, replay_ok_fast l = replay_ok l.
+Proof. exact replay_ok_fast_eq. Qed.
+Print Assumptions C12_fast_replay_ok.
+
+Theorem C12_fast_once_oracle : forall (cec : bool) (l : list step) (table : list ((N * N) * N)) (keys : list (N * N)),
+  same_keys keys l table = true -> once_ok_fast cec l table keys = once_ok cec l table.
+Proof. exact once_ok_fast_eq. Qed.
+Print Assumptions C12_fast_once_oracle.
+
+Theorem C12_fast_listing : forall (l : list step) (c : N), single_fast (steps_map l) c = single_branch l c.
+Proof. exact single_fast_eq. Qed.
+Print Assumptions C12_fast_listing.
+
+Theorem C12_fast_runs : forall (cec : bool) (l : list step),
+  commits_run_fast l = commits_run l /\ devs_result_fast cec l = devs_result cec l.
+Proof. exact (fun cec l => conj (commits_run_fast_eq l) (devs_result_fast_eq cec l)). Qed.
+Print Assumptions C12_fast_runs.
+
+Example C12_ex_fast :
+  replay_ok_fast ex_steps = true /\
+  map (single_fast (steps_map ex_steps)) [0; 1; 2; 3; 4; 5] = [true; true; true; false; true; false] /\
+  same_keys [(0, 0); (0, 1); (1, 0); (2, 1); (3, 1); (3, 0)] ex_steps [((0, 0), 1); ((0, 1), 1); ((3, 0), 1)] = true /\
+  same_keys [(0, 0); (0, 1); (1, 0); (2, 1); (3, 1)] ex_steps [((0, 0), 1); ((0, 1), 1); ((3, 0), 1)] = false /\
+  once_ok_fast false ex_steps [((0, 0), 1); ((0, 1), 1); ((3, 0), 1)] [(0, 0); (0, 1); (1, 0); (2, 1); (3, 1); (3, 0)] = true /\
+  once_ok_fast false ex_steps [((0, 0), 1); ((0, 1), 2); ((3, 0), 1)] [(0, 0); (0, 1); (1, 0); (2, 1); (3, 1); (3, 0)] = false /\
+  once_ok_fast true ex_steps [((0, 0), 1); ((0, 1), 1); ((3, 0), 1)] [(0, 0); (0, 1); (1, 0); (2, 1); (3, 1); (3, 0)] = false /\
+  map cs_commit (commits_run_fast ex_steps) = [0; 1; 2; 4].
+Proof. vm_compute. repeat split. Qed.
